@@ -417,3 +417,7 @@ def run(repo: Repo, rep: Report, tier: str) -> None:
     from .c02 import offset_pad_rule
 
     offset_pad_rule(repo, rep, "C17.R5")
+    from .memo import memo_rule
+
+    memo_rule(repo, rep, "C17.R7")
+
